@@ -61,7 +61,8 @@ ExeMode   == "exe"
 \*           (os._exit, SIGKILL, SIGSEGV): no result, no exception, nothing restored
 Kinds     == {"ret", "print", "raise", "setenv", "delenv", "swapout", "coro", "tenv", "sysexit",
               "die"}
-ProcKinds == {"ret", "print", "raise", "tenv", "sig"}
+\*   probe   (proc / shell only) prints RPV_T, which this request does not provide
+ProcKinds == {"ret", "print", "raise", "tenv", "sig", "probe"}
 KindOK(k, m) == IF m \in ProcModes THEN k \in ProcKinds
                 ELSE IF k = "coro" THEN m = "func" ELSE k \in Kinds
 
@@ -71,7 +72,7 @@ Succeeds(k)  == k \notin {"raise", "sysexit", "sig", "die"}
 ExpVal(k, m) == IF m \in ProcModes \/ ~Succeeds(k) THEN "none"
                 ELSE IF k \in {"ret", "coro"} THEN "7"
                 ELSE IF k = "tenv" THEN "'v'" ELSE "none"
-ExpOut(k, m) == IF k = "print" THEN "hello/"
+ExpOut(k, m) == IF k = "probe" THEN "unset/" ELSE IF k = "print" THEN "hello/"
                 ELSE IF k = "raise" THEN "partial/"
                 ELSE IF k = "tenv" /\ m \in ProcModes THEN "v/" ELSE ""
 ExpErr(k, m) == IF k = "print" THEN "oops/" ELSE ""
